@@ -30,7 +30,7 @@ CONSTANTS
   Quantum = "%(quantum)s"
   OrderMode = "%(order)s"
   PresMode = "%(presmode)s"
-  MaxRun = %(maxrun)d
+  RunLens = {%(runlens)s}
   Deltas = {%(deltas)s}
   Mirror = %(mirror)s
 %(inv)s
@@ -52,10 +52,11 @@ HEAP = os.environ.get("VERIF_TLC_HEAP") or "8g"
 
 def cfg(mirror, **kw):
     d = dict(spec="Spec", steps=STEPS_MC, ns=1, celldiv=1, maxwin=18000, maxslices=4, maxcells=10, startmode="few",
-             quantum="step", order="all", presmode="subset", maxrun=1, deltas=[], inv=INV, view="VIEW MCView")
+             quantum="step", order="all", presmode="subset", runlens=[1], deltas=[], inv=INV, view="VIEW MCView")
     d.update(kw)
     d["steps"] = ", ".join(str(s) for s in d["steps"])
     d["deltas"] = ", ".join(str(s) for s in d["deltas"])
+    d["runlens"] = ", ".join(str(s) for s in d["runlens"])
     d["mirror"] = "TRUE" if mirror else "FALSE"
     d["inv"] = ("INVARIANTS " + d["inv"]) if d["inv"] else ""
     return CFG % d
@@ -69,13 +70,13 @@ def mc_configs(thorough, mirror):
             ("two", cfg(mirror, steps=[3000, 3600, 6000, 7200], ns=2, maxwin=18000, maxslices=4, maxcells=6)),
             ("halfcell", cfg(mirror, steps=[3000, 3600, 7200], celldiv=2, maxwin=14400, maxslices=3, maxcells=12,
                              startmode="lattice", quantum="half", order="fwdrev")),
-            ("session", cfg(mirror, steps=[3000, 3600, 6000, 7200], maxwin=18000, maxslices=4, maxcells=9, deltas=[0, 2, 3, 4, 5])),
+            ("session", cfg(mirror, steps=[2400, 3000, 3600, 7200], maxwin=14400, maxslices=4, maxcells=9, deltas=[0, 2, 3, 4, 6])),
         ]
     return [
-        ("orders", cfg(mirror, maxwin=18000, maxslices=4, maxcells=10)),
+        ("orders", cfg(mirror, maxwin=18000, maxslices=4, maxcells=9)),
         ("align", cfg(mirror, maxwin=14400, maxslices=4, maxcells=8, startmode="lattice", quantum="half", order="fwdrev")),
         ("two", cfg(mirror, steps=[3600, 6000], ns=2, maxwin=10800, maxslices=3, maxcells=5)),
-        ("session", cfg(mirror, steps=[3000, 3600, 7200], maxwin=14400, maxslices=3, maxcells=7, deltas=[0, 2, 3, 4])),
+        ("session", cfg(mirror, steps=[2400, 3000], maxwin=10800, maxslices=3, maxcells=7, deltas=[0, 2, 3, 4])),
     ]
 
 
@@ -130,28 +131,37 @@ def generate(ctx, mirror):
     # BFS: every behaviour inside small bounds, sampled down to the budget by seed
     bfs = ctx.tlc("RangeSlice", "c13_gen_bfs.cfg", tag="gen-bfs", timeout=3000, workers=w, heap=HEAP, files={
         "c13_gen_bfs.cfg": cfg(mirror, maxwin=18000 if thorough else 14400, maxslices=4 if thorough else 3,
-                               maxcells=10 if thorough else 8, inv="EmitCase", view="")})
+                               maxcells=10 if thorough else 7, inv="EmitCase", view="")})
     all_bfs = [v[0] for v in prints(bfs, "CASE")]
-    add(sample(all_bfs, 120000 if thorough else 2500))
-    # BFS: sessions with a follow-up query through the cache
+    add(sample(all_bfs, 120000 if thorough else 2000))
+    # BFS: sessions with a follow-up query through the cache; ends on / next to slice boundaries only
+    # (quantum "slice"), where a cached last slice and the slices of the follow-up query interact
     bfs2 = ctx.tlc("RangeSlice", "c13_gen_sess.cfg", tag="gen-sess", timeout=3000, workers=w, heap=HEAP, files={
-        "c13_gen_sess.cfg": cfg(mirror, steps=[3000, 3600, 6000, 7200] if thorough else [3000, 3600, 7200],
-                                maxwin=14400, maxslices=3, maxcells=8 if thorough else 6,
-                                order="all" if thorough else "fwdrev", deltas=[0, 2, 3, 4, 5] if thorough else [0, 2, 3, 4],
-                                inv="EmitCase", view="")})
+        "c13_gen_sess.cfg": cfg(mirror, steps=[2400, 3000, 3600, 7200] if thorough else [2400, 3000],
+                                maxwin=14400 if thorough else 10800, maxslices=3, maxcells=9 if thorough else 7,
+                                quantum="slice", order="all" if thorough else "fwdrev",
+                                deltas=[0, 2, 3, 4, 6] if thorough else [0, 2, 3, 4], inv="EmitCase", view="")})
     all_sess = [v[0] for v in prints(bfs2, "CASE") if len(v[0]["queries"]) > 1]
-    add(sample(all_sess, 60000 if thorough else 1500))
+    add(sample(all_sess, 60000 if thorough else 3000))
+    # BFS: two series, one sample per slice, every arrival order (the merge fix-point runs per series)
+    bfs3 = ctx.tlc("RangeSlice", "c13_gen_two.cfg", tag="gen-two", timeout=3000, workers=w, heap=HEAP, files={
+        "c13_gen_two.cfg": cfg(mirror, steps=[7200] if not thorough else [3600, 7200], ns=2,
+                               maxwin=28800 if thorough else 21600, maxslices=5 if thorough else 4,
+                               maxcells=6 if thorough else 4, quantum="slice", inv="EmitCase", view="")})
+    all_two = [v[0] for v in prints(bfs3, "CASE")]
+    add(sample(all_two, 40000 if thorough else 1200))
     # simulation: wide vocabulary
     per_worker = max(1, (40000 if thorough else 1600) // w)
     sim = ctx.tlc("RangeSlice", "c13_gen_sim.cfg", tag="gen-sim", timeout=3000, simulate=per_worker, depth=400,
                   workers=w, heap=HEAP, files={
                       "c13_gen_sim.cfg": cfg(mirror, steps=STEPS_SIM, ns=2, celldiv=2, maxwin=28800, maxslices=7,
                                              maxcells=100000, startmode="lattice", quantum="step", presmode="runs",
-                                             maxrun=12, deltas=[0, 2, 3, 5, 8, 13], inv="EmitCase", view="")})
+                                             runlens=[1, 2, 3, 5, 8, 13, 21, 34, 55], deltas=[0, 2, 3, 5, 8, 13], inv="EmitCase", view="")})
     sim_cases = [v[0] for v in prints(sim, "CASE")]
     sim_cases.sort(key=lambda c: json.dumps(c, sort_keys=True))
     add(sim_cases)
-    return cases, dict(gen_bfs_total=len(all_bfs), gen_session_total=len(all_sess), gen_sim_total=len(sim_cases))
+    return cases, dict(gen_bfs_total=len(all_bfs), gen_session_total=len(all_sess), gen_two_series_total=len(all_two),
+                       gen_sim_total=len(sim_cases))
 
 
 def judge(ctx, trace, mirror, chunk_cases=10000):
